@@ -435,9 +435,11 @@ def history(ctx, r, lines, expect, meta):
                 if r.random() < .1 and ref.labels:
                     nl[0] = r.choice(ref.labels)
                 k = r.choice([1, len(ref.rows), len(ref.rows), 2])
-                form = r.choice(['tuple', 'tuple', 'dict', 'SampleSet'])
+                form = r.choice(['tuple', 'tuple', 'dict', 'SampleSet', 'list of dicts', 'generator of dicts'])
                 if form == 'dict':
                     k = 1                  # a mapping of constants: one row, repeated for every sample
+                if form in ('list of dicts', 'generator of dicts') and k == 0:
+                    form = 'tuple'
                 plain = ref.vt == 'INTEGER' and k > 0 and r.random() < .4
                 nr = [gen_values(r, ref.vt, len(nl), boundary=plain) for _ in range(k)]
                 sort = r.random() < .5
@@ -446,12 +448,31 @@ def history(ctx, r, lines, expect, meta):
                     like = '{' + ', '.join(f'{v!r}: {(int(x) if ref.vt != "REAL" else float(x))!r}' for v, x in zip(nl, nr[0])) + '}'
                 elif form == 'SampleSet':
                     like = f'dimod.SampleSet.from_samples(({arr_src}, {nl!r}), {ref.vt!r}, energy=[7.0] * {k}, sort_labels=False)'
+                elif form in ('list of dicts', 'generator of dicts'):
+                    orders = [r.sample(range(len(nl)), len(nl)) for _ in range(k)]
+                    body = '[' + ', '.join('{' + ', '.join(f'{nl[j]!r}: {(int(nr[i][j]) if ref.vt != "REAL" else float(nr[i][j]))!r}' for j in orders[i]) + '}' for i in range(k)) + ']'
+                    like = body if form == 'list of dicts' else f'iter({body})'
                 else:
                     like = f'({arr_src}, {nl!r})'
                 code = f'out = dimod.append_variables(ss, {like}, sort_labels={sort})'
                 ctx.tick(f'append_vars {form}: ' + ('label clash' if any(v in ref.labels for v in nl) else 'one row per sample' if k == len(ref.rows)
                                                    else 'one row broadcast' if k == 1 and ref.rows else 'wrong number of rows'))
-                line = f'appendvars 0 0 {int(sort)} ' + ','.join(lab(v) for v in nl) + ' ' + ('|'.join(','.join(rat(x) for x in row) for row in nr) or '-')
+                rows_w = '|'.join(','.join(rat(x) for x in row) or '-' for row in nr) or '~'
+                if form == 'dict':
+                    wform = 'M!' + ','.join(f'{lab(v)}={rat(x)}' for v, x in zip(nl, nr[0])) + f'!{int(ref.vt == "REAL")}'
+                elif form == 'SampleSet':
+                    wform = f"S!{','.join(lab(v) for v in nl)}!{rows_w}!f64"
+                elif form in ('list of dicts', 'generator of dicts'):
+                    wform = ('Q' if form == 'list of dicts' else 'I') + f'!{k}' + ''.join(
+                        '!M!' + ','.join(f'{lab(nl[j])}={rat(nr[i][j])}' for j in orders[i]) + f'!{int(ref.vt == "REAL")}' for i in range(k))
+                elif plain:
+                    wform = f"T!pi64!2:{len(nl)}:{rows_w}!{','.join(lab(v) for v in nl)}"
+                else:
+                    wform = f"T!nf64!2:{len(nl)}:{rows_w}!{','.join(lab(v) for v in nl)}"
+                line = f'appendform 0 0 {int(sort)} {wform}'
+                if form in ('list of dicts', 'generator of dicts'):
+                    # the column order of the stacked dicts is the key order of the FIRST one
+                    nl, nr = [nl[j] for j in orders[0]], [[row[j] for j in orders[0]] for row in nr]
                 exp = ref.append_vars(nl, [[F(x) for x in row] for row in nr], sort)
             elif op in ('change', 'change_ip'):
                 vt = r.choice(['SPIN', 'BINARY', 'SPIN', 'BINARY', 'INTEGER'])
